@@ -268,9 +268,15 @@ func checkMain(prop, tier string, only string) int {
 				samples = append(samples, sample)
 			}
 		}
-		if len(r.Obligations) == 0 && len(r.Inconclusive) == 0 {
+		reached := 0
+		for _, ob := range r.Obligations { // the completion obligation exists in every job and proves nothing about reachability
+			if !strings.HasSuffix(ob.ID, "/harness-runs-to-completion") {
+				reached++
+			}
+		}
+		if reached == 0 && len(r.Inconclusive) == 0 {
 			inconclusive++
-			lines = append(lines, fmt.Sprintf("INCONCLUSIVE: %s: no obligation reached", tag))
+			lines = append(lines, fmt.Sprintf("INCONCLUSIVE: %s: no obligation reached (every path was dropped by an assumption or ended before the first assertion): vacuous", tag))
 		}
 	}
 	for _, l := range lines {
